@@ -95,7 +95,7 @@ def report(ctx, f, extra=None):
     obj = {"property": "C05", "kind": "oracle:" + f["kind"], "why": f["why"],
            "classifier_id": CLASSES.get(f["kind"], (None, None))[0],
            "model_witness": CLASSES.get(f["kind"], (None, None))[1],
-           "case": brief(f["case"]),
+           "case": f["case"] if f["kind"] == "digest-premise" else brief(f["case"]),
            "replay_cmd": "./check C05 --replay <this file>"}
     if extra:
         obj.update(extra)
